@@ -12,6 +12,10 @@ pub fn families_for(prop: &str) -> Vec<Family> {
             Family { name: "c08_rand", cfg: c08_cfg, run: c08_rand_run },
         ],
         "C14" => vec![Family { name: "c14", cfg: c14_cfg, run: c14_run }],
+        "C15" => vec![
+            Family { name: "c15_ports", cfg: c15_cfg, run: c15_ports_run },
+            Family { name: "c15_dns", cfg: c15_dns_cfg, run: c15_dns_run },
+        ],
         "C03" => vec![
             Family { name: "c03_exh", cfg: c03_exh_cfg, run: c03_exh_run },
             Family { name: "c03_rand", cfg: c03_rand_cfg, run: c03_rand_run },
@@ -524,4 +528,160 @@ fn c14_run(case: &mut Case, rng: &mut Rng) {
         case.ctl("step");
     }
     case.ctl("mark drained");
+}
+
+// ---------------------------------------------------------------------------------------------
+// C15: ephemeral ports and DNS
+
+fn c15_cfg(rng: &mut Rng) -> CaseCfg {
+    let lo = 40000 + rng.below(10) as u16;
+    CaseCfg {
+        tick_ms: 1,
+        hosts: rng.range(2, 3) as usize,
+        minlat_ms: 0,
+        maxlat_ms: *rng.pick(&[0u64, 2]),
+        ephlo: lo,
+        ephhi: lo + rng.range(2, 7) as u16,
+        rng_seed: rng.next(),
+        v6: rng.chance(1, 5),
+        ..CaseCfg::default()
+    }
+}
+
+/// bind / connect / accept / drop / crash on hosts whose ephemeral range is a handful of ports.
+fn c15_ports_run(case: &mut Case, rng: &mut Rng) {
+    let hosts = case.cfg.hosts;
+    let lo = case.cfg.ephlo as u64;
+    let hi = case.cfg.ephhi as u64;
+    let n = hi - lo + 1;
+    // slot 0: listener on port 80 on every host
+    for h in 0..hosts {
+        case.ctl(&format!("q h{h} tcp_bind s0 any:80"));
+    }
+    case.ctl("step");
+    let mut next_slot = vec![1usize; hosts];
+    let mut live: Vec<Vec<usize>> = vec![vec![]; hosts]; // slots believed to hold something
+    let rounds = rng.range(10, 60);
+    for _ in 0..rounds {
+        let h = rng.below(hosts as u64) as usize;
+        let peer = (h + 1 + rng.below(hosts as u64 - 1) as usize) % hosts;
+        // keep the number of live sockets below the range most of the time
+        let crowded = live[h].len() as u64 + 1 >= n;
+        let choice = if crowded && !rng.chance(1, 8) { 6 + rng.below(2) } else { rng.below(9) };
+        match choice {
+            0 | 1 => {
+                let s = next_slot[h];
+                next_slot[h] += 1;
+                let kind = if rng.chance(1, 2) { "udp_bind" } else { "tcp_bind" };
+                let ip = if rng.chance(1, 4) { "lo" } else { "any" };
+                case.ctl(&format!("q h{h} {kind} s{s} {ip}:0"));
+                live[h].push(s);
+            }
+            2 => {
+                // explicit port inside (or next to) the ephemeral range
+                let s = next_slot[h];
+                next_slot[h] += 1;
+                let kind = if rng.chance(1, 2) { "udp_bind" } else { "tcp_bind" };
+                let port = lo + rng.below(n + 1);
+                case.ctl(&format!("q h{h} {kind} s{s} any:{port}"));
+                live[h].push(s);
+            }
+            3 | 4 => {
+                let s = next_slot[h];
+                next_slot[h] += 1;
+                // mostly to the listener; sometimes to a closed port (refused) or an unowned address
+                let dst = match rng.below(8) {
+                    0 => format!("h{peer}:81"),
+                    1 => "x0:80".to_string(),
+                    2 => format!("h{h}:80"),
+                    _ => format!("h{peer}:80"),
+                };
+                case.ctl(&format!("q h{h} tcp_connect s{s} {dst}"));
+                live[h].push(s);
+                // the peer accepts now or later
+                if rng.chance(2, 3) {
+                    let ps = next_slot[peer];
+                    next_slot[peer] += 1;
+                    case.ctl("step");
+                    case.ctl(&format!("q h{peer} tcp_accept s0 s{ps}"));
+                    live[peer].push(ps);
+                    case.ctl("step");
+                    case.ctl(&format!("q h{h} tcp_cpoll s{s}"));
+                }
+            }
+            5 => {
+                if let Some(&s) = live[h].last() {
+                    case.ctl(&format!("q h{h} tcp_cpoll s{s}"));
+                }
+            }
+            6 | 7 => {
+                if !live[h].is_empty() {
+                    let i = rng.below(live[h].len() as u64) as usize;
+                    let s = live[h].remove(i);
+                    case.ctl(&format!("q h{h} drop s{s}"));
+                }
+            }
+            _ => {
+                if rng.chance(1, 4) {
+                    case.ctl(&format!("crash h{h}"));
+                    if rng.chance(1, 2) {
+                        case.ctl("step");
+                    }
+                    case.ctl(&format!("bounce h{h}"));
+                    live[h].clear();
+                    next_slot[h] = 1;
+                    case.ctl(&format!("q h{h} tcp_bind s0 any:80"));
+                } else {
+                    case.ctl(&format!("q h{h} count"));
+                }
+            }
+        }
+        case.ctl("step");
+    }
+}
+
+fn c15_dns_cfg(rng: &mut Rng) -> CaseCfg {
+    CaseCfg { hosts: rng.range(1, 3) as usize, v6: rng.chance(1, 2), rng_seed: rng.next(), ..CaseCfg::default() }
+}
+
+/// Register and look up a few hundred names in random orders, by name, literal address and regex.
+fn c15_dns_run(case: &mut Case, rng: &mut Rng) {
+    let pool = rng.range(5, 300) as usize;
+    let mut known: Vec<String> = Vec::new(); // ipnums seen
+    let ops = rng.range(10, 400);
+    for _ in 0..ops {
+        match rng.below(10) {
+            0..=5 => {
+                let k = rng.below(pool as u64);
+                let prefix = *rng.pick(&["a", "b", "ab", "srv-"]);
+                case.ctl(&format!("dns {prefix}{k}"));
+                if let Some(last) = last_obs() {
+                    if let Some(ip) = last.strip_prefix("OBS ok ") {
+                        if !known.contains(&ip.to_string()) {
+                            known.push(ip.to_string());
+                        }
+                    }
+                }
+            }
+            6 | 7 => {
+                if !known.is_empty() {
+                    let ip = rng.pick(&known).clone();
+                    if rng.chance(1, 2) {
+                        case.ctl(&format!("rdns {ip}"));
+                    } else {
+                        case.ctl(&format!("dnsip {ip}"));
+                    }
+                }
+            }
+            8 => case.ctl(&format!("dnsprefix {}", *rng.pick(&["a", "b", "ab", "srv-1", "n", "zz"]))),
+            _ => {
+                case.ctl(&format!("q h0 lookup q{}", rng.below(20)));
+                case.ctl("step");
+            }
+        }
+    }
+}
+
+fn last_obs() -> Option<String> {
+    crate::common::peek_last_obs()
 }
